@@ -119,6 +119,43 @@ ob("C05", "O-C05.slider.table.magic", "sliders", "finite case analysis (c): for 
 ob("C05", "O-C05.slider.table.pext", "sliders", "finite case analysis (c) in the PEXT configuration (--features pext, -C target-feature=+bmi2, real instruction)",
    ["get_rook_moves", "get_bishop_moves", "get_pext_index", "pext_u64", "SLIDING_MOVES (build.rs output)"], backend="native", timeout=600, features=("pext",))
 
+# ------------------------------------------------------------------------------------------- C10
+ZB = "board::zobrist::verif_zobrist::"
+ob("C10", "O-C10.writer.xor_square", ZB + "c10_xor_square", "xor_square toggles exactly (piece, colour, square) in the two bitboards and XORs exactly KEY(colour, piece, square); every other field unchanged",
+   ["ZobristBoard::xor_square"], timeout=900)
+ob("C10", "O-C10.writer.set_castle_right", ZB + "c10_set_castle_right", "set_castle_right replaces exactly one right and XORs out the old / in the new key of that colour; every other field unchanged",
+   ["ZobristBoard::set_castle_right"], timeout=900)
+ob("C10", "O-C10.writer.set_en_passant", ZB + "c10_set_en_passant", "set_en_passant replaces the EP file and XORs out the old / in the new EP key; every other field unchanged",
+   ["ZobristBoard::set_en_passant"], timeout=900)
+ob("C10", "O-C10.writer.toggle", ZB + "c10_toggle", "toggle_side_to_move flips the side and XORs the side key; every other field unchanged",
+   ["ZobristBoard::toggle_side_to_move"], timeout=900)
+ob("C10", "O-C10.observers", ZB + "c10_observers", "hash() returns the stored hash; hash_without_ep() == hash of the same position with the EP file cleared; the empty board hashes to 0",
+   ["ZobristBoard::hash", "ZobristBoard::hash_without_ep", "ZobristBoard::empty"], timeout=900)
+ob("C10", "O-C10.contract-stubs", ZB + "c10_contract_stubs_faithful", "the contract stubs used by board-level hash obligations have exactly the field effect of the real writers",
+   ["ZobristBoard::xor_square", "ZobristBoard::set_castle_right", "ZobristBoard::set_en_passant", "ZobristBoard::toggle_side_to_move"], timeout=900)
+ob("C10", "O-C10.null", "board::verif_board::c10_null_hash", "after null_move the accumulated key toggles turn the feature set of the position into the feature set of the result (hash stays the position's hash)",
+   ["Board::null_move"], timeout=1800, cut=True)
+ob("C10", "O-C10.board_is_equal", ZB + "c10_board_is_equal", "board_is_equal compares exactly placement, side to move and castling rights",
+   ["ZobristBoard::board_is_equal"], timeout=900)
+
+# ------------------------------------------------------------------------------------------- C14
+BD = "board::verif_board::"
+ob("C14", "O-C14.null", BD + "c14_null_move", "null_move on every accepted board: None iff in check; otherwise every field == spec_null, checkers empty, pins and hash equal those of a fresh board of the position, result accepted (loop-invariant VCs for the pin loop)",
+   ["Board::null_move", "ZobristBoard::toggle_side_to_move", "ZobristBoard::set_en_passant", "Board::king"], timeout=1800, cut=True, expect_covers=2)
+
+# ------------------------------------------------------------------------------------------- play family
+KINDS = ["pawn", "knight", "bishop", "rook", "queen", "king", "castle"]
+PLAYFNS = ["Board::play_unchecked", "Board::piece_on", "Board::king", "ZobristBoard::xor_square", "ZobristBoard::set_castle_right", "ZobristBoard::set_en_passant", "ZobristBoard::toggle_side_to_move"]
+for k in KINDS:
+    ob("C02", "O-C02.play." + k, BD + "c02_play_" + k, "play_unchecked of any legal %s move on any accepted board: every position field (8 bitboards, side, 4 rights, EP file, both clocks) == successor prescribed by the rules" % k,
+       PLAYFNS, timeout=2400, cut=True)
+    ob("C03", "O-C03.play." + k, BD + "c03_play_" + k, "after play_unchecked of any legal %s move: checkers and pins == their definition on the resulting position (loop-invariant VCs for the slider loop)" % k,
+       PLAYFNS, timeout=2400, cut=True)
+    ob("C06", "O-C06.inv-preserved.play." + k, BD + "c06_play_" + k, "acceptance is inductive: the rule-prescribed successor of an accepted position after a legal %s move is accepted" % k,
+       ["(oracle) spec_accept", "(oracle) spec_play", "(oracle) spec_legal"], timeout=2400)
+    ob("C10", "O-C10.play." + k, BD + "c10_play_" + k, "after play_unchecked of any legal %s move the accumulated key toggles turn the feature set of the position into that of the successor" % k,
+       PLAYFNS, timeout=2400, cut=True)
+
 
 def for_property(prop, tier):
     out = []
